@@ -449,6 +449,30 @@ def literal(node, mod=None, depth=0):
     raise ValueError(f"not a literal: {short(node, 60)}")
 
 
+def seq_tokens(e):
+    """A concatenation of sequences as a token list, whatever the spelling: `tuple(list(a) + [x])`, `a + (x,)`, `[*a, x]` all read
+    ['*a', 'x'] (a name stands for all its elements).  None when `e` is not such a concatenation."""
+    if isinstance(e, ast.Call) and isinstance(e.func, ast.Name) and e.func.id in ("tuple", "list") and len(e.args) == 1 and not e.keywords:
+        return seq_tokens(e.args[0])
+    if isinstance(e, ast.BinOp) and isinstance(e.op, ast.Add):
+        a_, b_ = seq_tokens(e.left), seq_tokens(e.right)
+        return None if a_ is None or b_ is None else a_ + b_
+    if isinstance(e, (ast.Tuple, ast.List)):
+        out_ = []
+        for x_ in e.elts:
+            if isinstance(x_, ast.Starred):
+                t_ = seq_tokens(x_.value)
+                if t_ is None:
+                    return None
+                out_ += t_
+            else:
+                out_.append(norm(x_))
+        return out_
+    if isinstance(e, ast.Name):
+        return ["*" + e.id]
+    return None
+
+
 def class_attr(cnode, name):
     """Value node of a class-level assignment  name = <value>  (or None)."""
     for st in cnode.body:
